@@ -604,6 +604,25 @@ func (ex *Exec) evQuant(x *SQuant, env *Env) Val {
 		n.vars[v.Name] = Val{T: BV(name, s), Ty: t}
 	}
 	body := ex.evBool(x.Body, &n)
+	// bound variables range over well-formed Go values only
+	var wf []*Term
+	for _, b := range bound {
+		switch b.S {
+		case SStr:
+			wf = append(wf, Ge(SLen(BV(b.Name, b.S)), IntLit(0)))
+		case SSlice:
+			wf = append(wf, Ge(SlLen(BV(b.Name, b.S)), IntLit(0)))
+		case SSeq:
+			wf = append(wf, Ge(SeqLen(BV(b.Name, b.S)), IntLit(0)))
+		}
+	}
+	if len(wf) > 0 {
+		if x.Kind == "forall" {
+			body = Imp(And(wf...), body)
+		} else {
+			body = And(append(wf, body)...)
+		}
+	}
 	if x.Kind == "forall" {
 		if u := unrollForall(bound, body); u != nil {
 			return Val{T: u, Ty: tyBool}
@@ -883,7 +902,7 @@ func (ex *Exec) evCall(x *SCall, env *Env) Val {
 	case "min":
 		a, b := arg(0).T, arg(1).T
 		return Val{T: Ite(Le(a, b), a, b), Ty: tyInt}
-	case "concat":
+	case "sconcat":
 		return Val{T: ex.concat(arg(0).T, arg(1).T), Ty: tyStr}
 	case "chr":
 		ex.needChr = true
